@@ -3664,10 +3664,28 @@ def spec_streams_info(s, p):
     return slots, a, z3.Or(fails)
 
 
+# ArchiveProperties ::= 0x02 { id:BYTE != 0  size:NUMBER  data:BYTE[size] }* 0x00 -- a chain of unknown length: where it ends and
+# whether a read falls short on the way are primitive-recursive in the position (uninterpreted + instantiated definitions, like NUMPOS)
+PLEND = z3.Function("property_list_end", Stream, I, I)            # position after the 0x00 that ends the list starting at q
+PLBAD = z3.Function("property_list_short", Stream, I, B)          # some read of the list starting at q falls off the stream
+
+
+def pl_def(s, q):
+    L = SLEN(s)
+    sz = z3.BV2Int(NUMV(s, q + 1), False)
+    nxt = q + 1 + NUML(s, q + 1) + sz
+    return z3.And(PLEND(s, q) == z3.If(SB(s, q) == bv(0), q + 1, PLEND(s, nxt)),
+                  PLBAD(s, q) == z3.If(q + 1 > L, z3.BoolVal(True), z3.If(SB(s, q) == bv(0), z3.BoolVal(False),
+                                       z3.If(z3.Or(q + 1 + NUML(s, q + 1) > L, z3.And(sz > 0, nxt > L)), z3.BoolVal(True), PLBAD(s, nxt)))))
+
+
 def spec_main_header(s, p):
-    """Header without an ArchiveProperties section (precondition: no writer emits one)"""
+    """Header ::= [0x02 ArchiveProperties] [0x03 StreamsInfo] [0x04 StreamsInfo] [0x05 FilesInfo] 0x00"""
     L = SLEN(s)
     t, a, fails, slots = SB(s, p), p + 1, [p + 1 > L], []
+    c_ap, e_ap = t == bv(2), PLEND(s, p + 1)
+    fails += [z3.And(c_ap, PLBAD(s, p + 1)), z3.And(c_ap, e_ap + 1 > L)]
+    t, a = z3.If(c_ap, SB(s, e_ap), t), z3.If(c_ap, e_ap + 1, a)
     FEND, FFAIL = sub_end("_parse_files_info")
     sections = (("_parse_streams_info", 3, lambda q: spec_streams_info(s, q)[1], lambda q: spec_streams_info(s, q)[2]),
                 ("_parse_streams_info", 4, lambda q: spec_streams_info(s, q)[1], lambda q: spec_streams_info(s, q)[2]),
@@ -3730,16 +3748,44 @@ def dispatch_contracts():
 
     def mh(c):
         return spec_main_header(S0(c), pos0(c))
+
+    def ap_stream(x, st):
+        return st.obj(top(x, "self").ref).data["_stream"]
+
+    def ap_inv(lc):
+        """the archive-property list that starts at the current property ends where the one at the loop entry ends (and falls short iff
+        that one does): definitions of PLEND / PLBAD instantiated at the current property.  Two loop forms: `while True: id = read; if id
+        == END: break; ...` (the head stands AT a property) and the rotated `id = read; while id != END: ...; id = read` (the head stands one
+        byte after the property's id, which the loop test reads from a loop-carried local)"""
+        s_ = ap_stream(lc, lc.entry).t
+        p0, p1 = common.bytesio_pos(lc.entry, ap_stream(lc, lc.entry)), common.bytesio_pos(lc.st, ap_stream(lc, lc.st))
+        carried = loop_carried_ints(lc)
+        tested = [carried[x.id] for x in ast.walk(cur_loop(lc).test) if isinstance(x, ast.Name) and x.id in carried]
+        d = 1 if tested else 0
+        q0, q = p0 - d, p1 - d
+        lc.st.assume(pl_def(s_, q))
+        if d:       # the rotated form reads the next id inside the body: definition at the next property as well
+            lc.st.assume(pl_def(s_, q + 1 + NUML(s_, q + 1) + z3.BV2Int(NUMV(s_, q + 1), False)))
+        conj = [ap_stream(lc, lc.st).t == s_, PLEND(s_, q) == PLEND(s_, q0), PLBAD(s_, q) == PLBAD(s_, q0)]
+        if d:
+            conj += [q >= 0, p1 <= SLEN(s_)] + [ops.eq_term(v, VInt(SB(s_, q))) for v in tested]
+        return z3.And(conj)
+
+    def ap_havoc(ex, st):
+        common.havoc_pos(ex, st, ap_stream(ex, st))
+
     out.append(FnContract(
         target=f"{RD}._parse_main_header", params=[("self", p_reader())],
-        requires=lambda c: z3.And(req_stream(c), SB(S0(c), pos0(c)) != bv(2)), frame=sub_frame("_parse_main_header"), modifies=("self",),
+        requires=req_stream, frame=sub_frame("_parse_main_header"), modifies=("self",),
+        hyps=lambda c: z3.BoolVal(True) if c.at_call_site else pl_def(S0(c), pos0(c) + 1),      # definition of PLEND / PLBAD at the first property
+        loops=role(both(lambda ex, st, it, node: isinstance(node, ast.While), body_calls("_read_number")),
+                   "archive-property-list-from-here-ends-where-the-list-ends", ap_inv, havoc=(ap_havoc,)),
         ensures=[("streams-info-and-files-info-parsed-at-their-sections-in-grammar-order", internal(lambda c: trace_goal(mh(c)[0], new_subs(c)))),
                  ("stream-left-after-the-END-marker", lambda c: pos1(c) == mh(c)[1]),
                  ("returns-only-if-the-Header-grammar-accepts", lambda c: z3.Not(mh(c)[2]))],
         raises=[Raises(BAD, sub=True, when=lambda c: mh(c)[2], label="a section refused / bad end marker / short stream")],
-        note="Header grammar of 7zFormat.txt; precondition: no ArchiveProperties section (0x02; no writer emits one)"))
-    out.append(sub_view("_parse_main_header", note="call-site view for _parse_end_header; implied by the verified Header contract above when the "
-                                                   "header has no ArchiveProperties section"))
+        note="Header grammar of 7zFormat.txt incl. an ArchiveProperties list of any length (loop invariant over the property chain)"))
+    out.append(sub_view("_parse_main_header", note="call-site view for _parse_end_header; implied by the verified Header contract above"))
 
     def eh(c):
         return spec_end_header(S0(c), pos0(c))
